@@ -114,7 +114,17 @@ reg('C11', 'propchecks.c11', 'proof', T_C11T + T_C11 + (T1[:1] + TLEX) + [('Bash
     '(the here-document error carries the appended newline), unexpected EOF => p = len(src), unexpected token => p = lexpos of a delivered token. Not proved: the text at p is the token'])
 
 reg('C09', 'propchecks.lrcheck', 'proof', T1, ['the <= direction (every derivable sentence is accepted) is not proved: it is evaluated against an Earley recogniser on all enumerated token sequences', CORR])
-reg('C08', 'propchecks.c08', 'proof', T1, [ASCII, DEPTH, CORR])
+C08M = 'Bashlex.Props.C08'
+T_C08 = [('Bashlex.C08.' + t, C08M) for t in ['C08_accept_derivable', 'C08_accept_derivable_single', 'C08_rest_rejected', 'engine_good', 'run_consumed', 'mpPre_eof', 'csA_eof', 'parseMatchedPair_closes',
+         'parseMatchedPair_sq_raises', 'C08_unterminated_squote', 'C08_unterminated_dquote', 'C08_unterminated_bquote', 'C08_leading_rparen', 'C08_leading_bar', 'C08_leading_semi',
+         'run_rejects_leading', 'loop_rejects_pair', 'run_rejects_first_pair', 'redir_pairs', 'ctrl_pairs', 'leadingRejected_names', 'listHooks_rejects_leading', 'listHooks_rejects_redir',
+         'C08_heredoc_unterminated', 'C08_heredoc_strict']]
+reg('C08', 'propchecks.c08', 'proof', T_C08 + T1, [ASCII, DEPTH, CORR,
+    'Props/C08*.lean (3050 lines): (1) C08_accept_derivable - NO PREFIX ACCEPTANCE: whenever parse returns parts, the runs tile the input (run i+1 starts at the restart index after part i, the last run ends at or beyond the end) and every run consumed '
+    'leading NEWLINEs followed by exactly the yield of a valid derivation tree of the declared grammar rooted in an accepting symbol (engine_good, from C09_exact; run_consumed: the delivered terminals are consumed ++ at most one look-ahead); '
+    '(2) unterminated quotes: mpPre_eof / csA_eof (end of input inside _parse_matched_pair / _parse_comsub IS the unexpected-EOF ParsingError), parseMatchedPair_closes, and for ALL lengths C08_unterminated_squote / _dquote / _bquote (plain prefix, then an opening quote never closed => that ParsingError at the end of input); '
+    '(3) rejection families on the real tables for an ARBITRARY token source: run_rejects_leading (25 terminals - every control operator, closer and THEN/FI/DONE/... - after optional NEWLINEs), redir_pairs (after every redirection operator only WORD-like terminals are accepted), ctrl_pairs, loop_rejects_pair; end to end through the tokenizer C08_leading_rparen / _bar / _semi for every continuation of the input; '
+    '(4) C08_heredoc_unterminated / C08_heredoc_strict: no delimiter line in strict mode (or once the body has begun) => the here-document ParsingError. Not proved: operator pairs where the second operator is reduced on before the error is found, $( and ${ at text level, a Logged instance of the real tokenizer; D9 (text dropped inside substitutions) concerns nested parsers and stays a per-input finding'])
 
 C15M = 'Bashlex.Props.C15'
 reg('C15', 'propchecks.c15', 'proof', [('Bashlex.Props.C15', C15M), ('Bashlex.Props.enters_visit', C15M), ('Bashlex.Props.reached_noprune', C15M),
